@@ -315,6 +315,18 @@ class Eval:
             return top(self.node_ty(n))
         if k == "for":
             return self.for_range(n)
+        if k == "path" and str(n.get("def", "")).rsplit("::", 1)[0].endswith(("impl f32>", "f32::consts", "std::f32", "core::f32")):
+            # associated constants of f32
+            nm = n["def"].rsplit("::", 1)[-1]
+            consts = {"EPSILON": Fr(1, 2 ** 23), "MAX": F32_MAX, "MIN": -F32_MAX, "MIN_POSITIVE": Fr(1, 2 ** 126)}
+            if nm in consts:
+                return AV(consts[nm], consts[nm], False, ty="f32")
+            if nm == "INFINITY":
+                return AV(INF, INF, False, ty="f32")
+            if nm == "NEG_INFINITY":
+                return AV(-INF, -INF, False, ty="f32")
+            if nm == "NAN":
+                return AV(-INF, INF, True, ty="f32")
         raise ValueError("E2 cannot evaluate node kind %r: %s" % (k, short(pretty(n0), 80)))
 
     def sym_av(self, sym, ty):
